@@ -388,6 +388,21 @@ def run_check(prop, tier, seed, replay=None):
             from . import hooks_family
             hook_info, hv = hooks_family.validate(prop, work)
             violations += hv
+        stress_info = {}
+        if replay is None and prop == 'C06':
+            # windows no hook marks (between the grant of a slot and the handler's start) cannot be steered, only tried often
+            import subprocess
+            so = os.path.join(work, 'stress.json')
+            env = dict(os.environ, VERIF_STRESS_MS='4000' if tier == 'quick' else '40000', VERIF_SEED=str(seed), VERIF_OUT=so)
+            p = subprocess.run(['timeout', '600', binp, '-test.run', '^TestStressSlots$', '-test.timeout', '0'], cwd=work, env=env, capture_output=True, text=True)
+            if p.returncode != 0 or not os.path.exists(so):
+                raise C.ToolError('stress run failed (rc=%s): %s' % (p.returncode, (p.stdout + p.stderr)[-1500:]))
+            sr = json.load(open(so))
+            stress_info = dict(stress_calls_with_racing_cancel=sr['iterations'], stress_cancelled_before_running=sr['cancelled_before_running'])
+            for k, why in enumerate(sr.get('violations') or []):
+                ev = dict(ev='Stress', what=why)
+                path = C.save_replay(prop, 'stress-slots-%d' % k, dict(property=prop, scenario=dict(name='stress-slots', steps=[]), rejected_at=0, event=ev, trace=[ev]))
+                violations.append(('stress-slots', path, dict(at=0, event=ev)))
         racy = sum(t[0].get('st_racy', 0) > 0 for t in traces)
         div = sum(t[0].get('st_diverged', 0) for t in traces)
         distinct = len({signature(t) for t in traces})
@@ -400,6 +415,7 @@ def run_check(prop, tier, seed, replay=None):
                    samples=[dict(scenario=scs[0]['name'], steps=scs[0]['steps'][:12], events=[e['ev'] for e in traces[0]][:40])],
                    exhaustive=False)
         cov.update(hook_info)
+        cov.update(stress_info)
         if replay is None and cov_info:
             cov.update(cov_info)
             cov['cover_paths_diverged'] = sum(1 for t in traces if '-cover-' in t[0]['scn'] and t[0].get('st_diverged', 0) > 0)
